@@ -12,7 +12,8 @@ From Coq Require Import ZArith List Bool.
 From Coq.Strings Require Import Byte String.
 From EsVerif.Common Require Import Base Bytes.
 From EsVerif.C01 Require Import Framing.
-From EsVerif.C03 Require Import Model Spec Lemmas Proofs Witness Exec ExecProofs.
+From EsVerif.C04 Require TextModel Spec FmtModel.
+From EsVerif.C03 Require Import Model Spec Lemmas Proofs Witness Exec ExecProofs Deep TextRows.
 Import ListNotations.
 Open Scope Z_scope.
 Open Scope list_scope.
@@ -136,6 +137,118 @@ Proof. exact hist_check_sound. Qed.
    every row) is the model. *)
 Theorem C03_exec_run_is_model : forall meta enc ops s, run_x meta enc s ops = run meta enc s ops.
 Proof. exact run_x_eq. Qed.
+
+(* ================================================================== proof-deepening round *)
+
+(* ---- "compatible", exactly: for a binary file the dtypes are equal (byte order included); for a
+   text file they are equal once the byte order of every field is forgotten.  This is the whole
+   acceptance condition of _ensure_compatible_dtype. *)
+Theorem C03_compat_exact : forall dl fdt cdt,
+  compat dl fdt cdt = true <->
+  match dl with None => fdt = cdt | Some _ => map strip_order fdt = map strip_order cdt end.
+Proof. exact compat_exact. Qed.
+
+(* the dtype a file records is compatible with the dtype it was created from (either byte order) *)
+Theorem C03_compat_created : forall dl dt, compat dl (file_dtype dl dt) dt = true.
+Proof. exact compat_created. Qed.
+
+(* ---- the exact rejection set: on a file that exists an append (function form, or through the open
+   object) has exactly two outcomes — Ok iff compatible, ValueError iff not; no other error. *)
+Theorem C03_rejection_exact : forall meta enc s af o c dl d u,
+  Inv meta enc s (AFile af o) -> total af + nrows c < 10 ^ 20 -> chunk_ok c ->
+  (snd (step meta enc s (FnWrite true dl c d u)) = OOk <-> compat (a_dl af) (a_dt af) (c_dt c) = true)
+  /\ (snd (step meta enc s (FnWrite true dl c d u)) = OErr EValue <-> compat (a_dl af) (a_dt af) (c_dt c) = false)
+  /\ (forall m, o = Some m ->
+        (snd (step meta enc s (WriteAgain c d u)) = OOk <-> compat (a_dl af) (a_dt af) (c_dt c) = true)
+        /\ (snd (step meta enc s (WriteAgain c d u)) = OErr EValue <-> compat (a_dl af) (a_dt af) (c_dt c) = false)).
+Proof. exact rejection_exact. Qed.
+
+(* ---- frame: read, close and the reopen of an existing file change no byte *)
+Theorem C03_frame_no_write : forall meta enc s a o,
+  Inv meta enc s a -> (o = Read \/ o = Close \/ (exists dl, o = Reopen dl /\ a <> AMissing)) ->
+  used a < 10 ^ 20 ->
+  disk (fst (step meta enc s o)) = disk s.
+Proof. exact frame_no_write. Qed.
+
+(* ---- frame: an accepted append rewrites the 20 digits of the row count and adds the rows at the
+   end; "SIZE = ", the header text, the END line and every earlier row keep bytes and positions *)
+Theorem C03_frame_append : forall meta enc s af m c d u,
+  Inv meta enc s (AFile af (Some m)) -> total af + nrows c < 10 ^ 20 -> chunk_ok c ->
+  compat (a_dl af) (a_dt af) (c_dt c) = true ->
+  exists old new,
+    disk s = Some old /\ disk (fst (step meta enc s (WriteAgain c d u))) = Some new
+    /\ firstn 7 new = firstn 7 old
+    /\ skipn 27 new = skipn 27 old ++ payload enc (a_dl af) c
+    /\ length new = (length old + length (payload enc (a_dl af) c))%nat.
+Proof. exact frame_append. Qed.
+
+(* ---- independence of history: a read, the function forms of write, a create and a reopen are
+   functions of the file's BYTES (and their own arguments) alone — not of any object state, not of
+   how the file came to be *)
+Theorem C03_read_depends_on_file_only : forall meta s1 s2, disk s1 = disk s2 -> read_back meta s1 = read_back meta s2.
+Proof. exact read_depends_on_file_only. Qed.
+
+Theorem C03_fn_depends_on_file_only : forall meta enc s1 s2 ap dl c d u,
+  disk s1 = disk s2 -> step meta enc s1 (FnWrite ap dl c d u) = step meta enc s2 (FnWrite ap dl c d u).
+Proof. exact fn_depends_on_file_only. Qed.
+
+Theorem C03_create_depends_on_nothing : forall meta enc s1 s2 dl c d u,
+  step meta enc s1 (Create dl c d u) = step meta enc s2 (Create dl c d u).
+Proof. exact create_depends_on_nothing. Qed.
+
+Theorem C03_reopen_depends_on_file_only : forall meta enc s1 s2 dl,
+  disk s1 = disk s2 -> step meta enc s1 (Reopen dl) = step meta enc s2 (Reopen dl).
+Proof. exact reopen_depends_on_file_only. Qed.
+
+(* ---- the checker DECIDES the statement on a list of observations *)
+Theorem C03_checker_iff : forall ops a before os, hist_check a before ops os = true <-> hist_ok a before ops os.
+Proof. exact hist_check_iff. Qed.
+
+(* ---- text files: the rows.  With the text form of a chunk given by C04's verified model of the
+   writer ([enc_text F]: TextModel.write_text over the chunk cut into fields and elements), the data
+   region of ANY file the machine built in text form is the text of ONE table with the rows of all
+   accepted chunks, in order, in native byte order; and C04's reader, given the fields and the row
+   count of the header, returns exactly them (floating-point cells through C04's printf/scanf
+   contract [fcontract], outside C04's known class) — C04's round-trip theorem lifted from one
+   write to a history. *)
+Theorem C03_text_writes_concatenate : forall F d fs0 tabs,
+  (forall t, In t tabs -> map TextModel.fkind (TextModel.tdt t) = map TextModel.fkind fs0) ->
+  TextModel.write_text F d (combined fs0 tabs) = concat (map (TextModel.write_text F d) tabs).
+Proof. exact write_text_combined. Qed.
+
+Theorem C03_text_file_rows : forall F P meta s af o d,
+  Inv meta (enc_text F) s (AFile af o) -> a_dl af = Some [d] -> total af < 10 ^ 20 ->
+  let T := combined (flds_of (a_dt af)) (map table_of (a_chunks af)) in
+  Spec.table_ok T -> Spec.delim_ok d -> Spec.fcontract F P T -> Spec.kf_leading_ws_after_numeric d T = false ->
+  exists f off,
+    disk s = Some f
+    /\ read_meta meta f = Ok (total af, off, a_dl af, a_dt af, a_u af)
+    /\ skipn off f = TextModel.write_text F d T
+    /\ Z.of_nat (length (TextModel.trows T)) = total af
+    /\ TextModel.read_text P d (TextModel.tdt T) (total af) (skipn off f) = Ok (Spec.expected F P T)
+    /\ Spec.roundtrip_ok T (TextModel.read_text P d (TextModel.tdt T) (total af) (skipn off f)).
+Proof. exact text_file_rows. Qed.
+
+(* non-vacuity of the text theorem: a ','-file from a little-endian and a big-endian chunk *)
+Example C03_text_rows_nonvacuous :
+  hist_wf tx_meta AMissing tx_ops /\ hist_rows tx_ops < 10 ^ 20
+  /\ fold_left (fun a o => fst (astep a o)) tx_ops AMissing = AFile tx_af None
+  /\ Spec.table_ok tx_T /\ Spec.delim_ok x2c /\ Spec.fcontract tx_F tx_F tx_T
+  /\ Spec.kf_leading_ws_after_numeric x2c tx_T = false
+  /\ disk (final tx_meta (enc_text tx_F) init tx_ops)
+     = Some (mk_header 3 tx_d ++ B "1,ab" ++ [x0a] ++ B "-2,cd" ++ [x0a] ++ B "3,ef" ++ [x0a])
+  /\ TextModel.read_text tx_F x2c (TextModel.tdt tx_T) 3 (B "1,ab" ++ [x0a] ++ B "-2,cd" ++ [x0a] ++ B "3,ef" ++ [x0a])
+     = Ok {| TextModel.tdt := TextModel.tdt tx_T;
+             TextModel.trows := [[[[x01; x00]]; [[x61; x62]]]; [[[xfe; xff]]; [[x63; x64]]]; [[[x03; x00]]; [[x65; x66]]]] |}.
+Proof. exact text_rows_nonvacuous. Qed.
+
+(* non-vacuity of the deepening theorems on the closed binary witness of C03_nonvacuous: the
+   incompatible chunk is rejected, the compatible one accepted, exactly *)
+Example C03_deep_nonvacuous :
+  compat None ex_dt (c_dt ex_bad) = false /\ compat None ex_dt (c_dt ex_c2) = true
+  /\ compat (Some [x2c]) tx_dt tx_dt_be = true /\ compat None tx_dt tx_dt_be = false
+  /\ chunk_ok ex_c2 /\ chunk_ok ex_bad.
+Proof. repeat split; try reflexivity; try discriminate; repeat constructor. Qed.
 
 (* Non-vacuity: a closed 7-operation history (create, write again, read while open, close,
    append by reopening, an incompatible append, read) meets every premise of C03_history and
